@@ -119,24 +119,19 @@ def rule_post_hook_frame(ctx):
     if len(st["S1"]) != 1:
         raise AnchorError("finish call site not unique", key)
     s1 = st["S1"][0]["bb"]
+    # only *mutable* accesses matter: a read cannot change what the hook wrote, and a read that leads to a
+    # new refusal is reported by C02 REJECT-COMPLETE (extra row in build's rejection list)
     after = []
-    for c in bm["calls"]:
-        if c["bb"] == s1 or not body.dominates(s1, c["bb"]):
+    for e in bm["effects"]:
+        if e["bb"] == s1 or not body.dominates(s1, e["bb"]) or e["target"][0] != "arg":
             continue
-        touches = [a for a in c["args"] if (a[0] == "field" and (models.field_path(a) or "").startswith("parts")) or a == ("arg", 1)]
-        if touches:
-            after.append((c["path"], [models.field_path(a) for a in touches], c["site"]))
-    allowed = {
-        "is_empty": "parts.name",
-        "retain": "parts.qualifiers",
-        "try_get_typed": "parts.qualifiers",
-        "insert": "parts.qualifiers",
-    }
-    for (p, flds, site) in after:
+        after.append((e["path"], e["target"][2], e["site"]))
+    allowed = {"retain": "parts.qualifiers", "insert": "parts.qualifiers"}
+    for (p, fld, site) in after:
         nm = p.split("::")[-1]
-        ok = nm in allowed and all(f == allowed[nm] for f in flds)
-        ctx.ob("POST-HOOK-FRAME", "after the hook: %s on %s is one of the three generic checks" % (nm, flds), ok, fn=key, site=site, detail=p)
-    ctx.ob("POST-HOOK-FRAME", "after the hook the parts are accessed by exactly: name.is_empty, qualifiers.retain, qualifiers.try_get_typed, qualifiers.insert", sorted(p.split("::")[-1] for p, _, _ in after) == ["insert", "is_empty", "retain", "try_get_typed"], fn=key, detail=str([(p.split("::")[-1], f) for p, f, _ in after]))
+        ok = nm in allowed and fld == allowed[nm]
+        ctx.ob("POST-HOOK-FRAME", "after the hook: mutable access %s on %s is one of the generic clean-ups" % (nm, fld), ok, fn=key, site=site, detail=p)
+    ctx.ob("POST-HOOK-FRAME", "after the hook the parts are mutated by exactly: qualifiers.retain, qualifiers.insert(checksum)", sorted(p.split("::")[-1] for p, _, _ in after) == ["insert", "retain"], fn=key, detail=str([(p.split("::")[-1], f) for p, f, _ in after]))
     pw = [w for w in body.partial_writes(1) if not body.is_cleanup(w[0])]
     ctx.ob("POST-HOOK-FRAME", "no direct assignment to self.parts / self.package_type in build()", not pw, fn=key, detail="")
     pay = st["S5"][0]["payload"] if len(st["S5"]) == 1 else None
@@ -156,7 +151,7 @@ RULES = [
     ("ONCE-CONV", rule_once_conv, 4),
     ("ONCE-HOOK", rule_once_hook, 9),
     ("ERR-PASS", rule_err_pass, 5),
-    ("POST-HOOK-FRAME", rule_post_hook_frame, 8),
+    ("POST-HOOK-FRAME", rule_post_hook_frame, 6),
 ]
 
 MANIFEST = {
